@@ -672,6 +672,9 @@ class Calls(Interp):
         if not args:
             yield st, b''
             return
+        if len(args) == 1 and is_concrete(args[0]) and isinstance(args[0], int) and not isinstance(args[0], bool) and 0 <= args[0] <= 4096:
+            yield st, bytes(args[0])
+            return
         raise Outside("bytes() with arguments")
 
     def seq_sum(self, v, st):
@@ -740,6 +743,11 @@ class Calls(Interp):
             return
         if isinstance(recv, tuple) and recv and recv[0] == 'pydict':
             raise Outside("method on dict display")
+        if isinstance(recv, list) and st.spec and name == 'append' and len(args) == 1:
+            # inside a specification a list display is a python list of values (no branching there): grow it in place
+            recv.append(args[0])
+            yield st, None
+            return
         raise Outside("method %s on %r (line %s)" % (name, recv, line))
 
     # ---- mutable list / set / dict ------------------------------------------------------------------------------
@@ -962,7 +970,29 @@ class Calls(Interp):
             lst = self.lift(lst, st)
         if not (is_concrete(recv) and recv == b''):
             raise Outside("bytes.join with separator")
+        if isinstance(lst, (list, tuple)):
+            parts = [self.term(x, BYTES, st) for x in lst]
+            yield st, V(self.mk_concat(*parts) if parts else z3.Empty(BYTES_SORT), BYTES)
+            return
         if isinstance(lst, V) and lst.ty == LIST(BYTES):
+            # a list of known length, given element by element: the concatenation of its elements
+            t = lst.t
+            def flatten(x):
+                if z3.is_app_of(x, z3.Z3_OP_SEQ_CONCAT):
+                    out = []
+                    for k in range(x.num_args()):
+                        out += flatten(x.arg(k))
+                    return out
+                if z3.is_app_of(x, z3.Z3_OP_SEQ_EMPTY):
+                    return []
+                return [x]
+            units = flatten(t) if z3.is_app_of(t, (z3.Z3_OP_SEQ_CONCAT)) or z3.is_app_of(t, z3.Z3_OP_SEQ_UNIT) else None
+            if z3.is_app_of(t, z3.Z3_OP_SEQ_EMPTY):
+                yield st, V(z3.Empty(BYTES_SORT), BYTES)
+                return
+            if units is not None and all(z3.is_app_of(u, z3.Z3_OP_SEQ_UNIT) for u in units):
+                yield st, V(self.mk_concat(*[u.arg(0) for u in units]), BYTES)
+                return
             f = self.uf('bytes_join', lst.t.sort(), z3.IntSort(), BYTES_SORT)
             i = self.fresh_term('i', z3.IntSort())
             self.add_func_axiom(f(lst.t, 0) == z3.Empty(BYTES_SORT))
